@@ -90,6 +90,107 @@ def columnInt (r : RL2 α) (j : Int) : List α :=
     ((ix.zip (ix.drop 1)).zip iv.2).filterMap (fun p =>
       if (p.1.1 : Int) ≤ col ∧ col < (p.1.2 : Int) then some p.2 else none))
 
+
+/-! ### column ranges `rl[rows, start:stop:step]` on the ragged variant (`_getitem_tuple`, slice branch)
+
+Per row: find the run containing the (clamped) start / stop column by a mask over the runs, cut the
+boundary and value rows with `ragged_slice`, overwrite the first / last boundary with the exact
+columns, shift to 0, then `_step_subset` (mirror for a negative step, ceil-divide by `|step|`, drop the
+runs that became empty).  `np.nonzero` of the START mask must hit exactly once per row (otherwise the
+per-row columns are misaligned): the model refuses (`none`) when it does not. -/
+
+/-- runs of one row as (run number, lo, hi) -/
+def runBounds (ix : List Nat) : List (Nat × Int × Int) :=
+  (List.range (ix.length - 1)).zip ((ix.zip (ix.drop 1)).map (fun p => ((p.1 : Int), (p.2 : Int))))
+
+def findRun (ix : List Nat) (p : Int → Int → Bool) : Option Nat :=
+  ((runBounds ix).find? (fun r => p r.2.1 r.2.2)).map (·.1)
+
+/-- `np.minimum(L, b)` for `b ≥ 0`, `np.maximum(0, L + b)` otherwise -/
+def clampCol (L : Int) (b : Int) : Int := if b ≥ 0 then min L b else max 0 (L + b)
+
+/-- `RunLengthRaggedArray.remove_empty_intervals` on one row: keep boundary 0 and every boundary that
+differs from its predecessor; keep the values of the non-empty runs -/
+def removeEmptyRow (i : List Int) (v : List α) : List Int × List α :=
+  let keep := List.zipWith (fun a b => decide (a ≠ b)) i (i.drop 1)
+  (i.take 1 ++ ((i.drop 1).zip keep).filterMap (fun p => if p.2 then some p.1 else none),
+   (v.zip keep).filterMap (fun p => if p.2 then some p.1 else none))
+
+/-- `_step_subset(step, indices, values)` on one row (boundaries already start at 0) -/
+def stepSubsetRow (step : Int) (i : List Int) (v : List α) : List Int × List α :=
+  let last := i.getLast?.getD 0
+  let i := if step < 0 then i.reverse.map (last - ·) else i
+  let v := if step < 0 then v.reverse else v
+  let k : Int := step.natAbs
+  let i := if k ≠ 1 then i.map (fun x => (x + k - 1) / k) else i
+  removeEmptyRow i v
+
+/-- `l[a:b]` for `0 ≤ a`, bounds as numpy clips them (`none` = open) -/
+def cut {β : Type} (l : List β) (a : Option Int) (b : Option Int) : List β :=
+  let a' := (a.getD 0).toNat
+  match b with
+  | none => l.drop a'
+  | some b => (l.drop a').take (b.toNat - a')
+
+/-- one row of `rl[:, start:stop:step]`; `none` = the start mask has no hit (misaligned columns), a
+boundary / value count mismatch, or a negative boundary: outside the property's domain -/
+def colRangeRow (ix : List Nat) (vs : List α) (start stop : Option Int) (step : Int) :
+    Option (List Nat × List α) :=
+  let k := ix.length - 1
+  let L : Int := ((ix.getLast?.getD 0 : Nat) : Int)
+  let rev := decide (step < 0)
+  let startR := start.map (clampCol L)
+  let stopR := stop.map (clampCol L)
+  -- the two mask searches; `startCol = none` / `stopCol = none` mean Python's `None`
+  let fromStop : Option Int := stopR.map (fun b =>
+    if rev then ((findRun ix (fun lo hi => decide (lo ≤ b + 1 ∧ hi > b + 1))).getD k : Nat)
+    else match findRun ix (fun lo hi => decide (hi ≥ b ∧ lo < b)) with
+      | some j => (j : Int)
+      | none => -1)
+  let fromStart : Option (Option Int) := match startR with
+    | none => some none
+    | some a =>
+      (if rev then findRun ix (fun lo hi => decide (hi ≥ a + 1 ∧ lo < a + 1))
+       else findRun ix (fun lo hi => decide (lo ≤ a ∧ hi > a))).map (fun j => some (j : Int))
+  fromStart.bind (fun fromStart =>
+  let startCol : Option Int := if rev then fromStop else fromStart
+  let stopCol : Option Int := if rev then fromStart else fromStop
+  let r : Bool × List Int × List α :=
+    match startCol, stopCol with
+    | none, none => (false, ix.map (fun (x : Nat) => (x : Int)), vs)
+    | _, _ =>
+      let s := startCol
+      let e := stopCol.map (· + 2)
+      let e2 := stopCol.map (· + 1)
+      let (isEmpty, e, e2) := match s, e, e2 with
+        | some s', some e', some e2' => (decide (s' ≥ e'), some (max (s' + 1) e'), some (max s' e2'))
+        | _, _, _ => (false, e, e2)
+      let i : List Int := (cut ix s e).map (fun (x : Nat) => (x : Int))
+      let v := cut vs s e2
+      let i := if rev then
+          (let i := match startR with | some a => i.set (i.length - 1) (a + 1) | none => i
+           match stopR with | some b => i.set 0 (b + 1) | none => i)
+        else
+          (let i := match stopR with | some b => i.set (i.length - 1) b | none => i
+           match startR with | some a => i.set 0 a | none => i)
+      let i0 := i.headD 0
+      (isEmpty, i.map (· - i0), v)
+  let p := stepSubsetRow step r.2.1 r.2.2
+  let i := if r.1 then p.1.set 0 0 else p.1
+  if i.length = p.2.length + 1 ∧ i.all (fun x => decide (0 ≤ x)) then some (i.map Int.toNat, p.2) else none)
+
+/-- `rl[rows, start:stop:step]` (ragged variant, `step ≠ 0`) -/
+def colRange (r : RL2 α) (sel : RowSel) (start stop : Option Int) (step : Int) : Option (RL2 α) :=
+  (r.selectRows sel).bind (fun rows =>
+    if rows.indices.isEmpty then some rows else
+    let obviouslyEmpty := match start, stop with
+      | some a, some b => (decide (step < 0) && decide (a ≤ b) && decide (a > 0)) ||
+                          (!decide (step < 0) && decide (a ≥ b) && decide (b > 0))
+      | _, _ => false
+    if obviouslyEmpty then some ⟨rows.indices.map (fun _ => [0]), rows.indices.map (fun _ => []), none⟩ else
+    ((rows.indices.zip rows.values).mapM (fun iv => colRangeRow iv.1 iv.2 start stop step)).map
+      (fun rs => ⟨rs.map (·.1), rs.map (·.2), none⟩))
+
 /-- run lengths of a row -/
 def rowRunLens (r : RL2 α) (ix : List Nat) : List Nat := RLA.runLens (r.rowEvents ix)
 
